@@ -71,9 +71,13 @@ func (e *env) prototypes(c *config.Configuration) {
 		p = &config.MechanismPrototypes{}
 		c.Prototypes = p
 	}
-	addAuthn := func(id, typ string, cfg map[string]any) { p.Authenticators = append(p.Authenticators, mech(id, typ, cfg)) }
+	addAuthn := func(id, typ string, cfg map[string]any) {
+		p.Authenticators = append(p.Authenticators, mech(id, typ, cfg))
+	}
 	addAuthz := func(id string, cfg map[string]any) { p.Authorizers = append(p.Authorizers, mech(id, "remote", cfg)) }
-	addCtx := func(id string, cfg map[string]any) { p.Contextualizers = append(p.Contextualizers, mech(id, "generic", cfg)) }
+	addCtx := func(id string, cfg map[string]any) {
+		p.Contextualizers = append(p.Contextualizers, mech(id, "generic", cfg))
+	}
 	addFin := func(id, typ string, cfg map[string]any) { p.Finalizers = append(p.Finalizers, mech(id, typ, cfg)) }
 
 	// ---- (1) determinism: random configurations -------------------------------------------------
@@ -166,9 +170,9 @@ func (e *env) prototypes(c *config.Configuration) {
 	// NOTE: the pair prototypes carry at most one endpoint header and one value each, so that their cache keys do not
 	// depend on map iteration order (that defect is decided by part (1)); every pair therefore is decided reproducibly.
 	addAuthz("ra-main", map[string]any{
-		"endpoint": map[string]any{"url": S + "/authz"},
-		"payload":  `{"role": {{ quote .Subject.Attributes.role }}, "tenant": {{ quote .Values.v2 }} }`,
-		"values":   map[string]any{"v2": `{{ .Request.Header "X-Tenant" }}`},
+		"endpoint":                             map[string]any{"url": S + "/authz"},
+		"payload":                              `{"role": {{ quote .Subject.Attributes.role }}, "tenant": {{ quote .Values.v2 }} }`,
+		"values":                               map[string]any{"v2": `{{ .Request.Header "X-Tenant" }}`},
 		"forward_response_headers_to_upstream": []string{"X-Authz-Echo"}, "cache_ttl": longTTL})
 	addAuthz("ra-sub", map[string]any{
 		"endpoint": map[string]any{"url": S + "/authz", "headers": map[string]any{"X-Sub": "{{ .Subject.ID }}"}},
@@ -253,6 +257,35 @@ func (e *env) prototypes(c *config.Configuration) {
 		"payload": `{"who": {{ quote .Subject.ID }} }`, "cache_ttl": "0s"})
 	addCtx("hx-vary", map[string]any{"endpoint": map[string]any{"url": S + "/ctx?cc=max-age%3D600&vary=X-Sub&p=vary", "method": "GET", "headers": map[string]any{"X-Sub": "{{ .Subject.ID }}"},
 		"http_cache": map[string]any{"enabled": true}}, "cache_ttl": "0s"})
+	// several forwarded names: a value can move from one name to another one (header -> header, header -> cookie,
+	// cookie -> cookie) while the other name is absent from the request
+	addCtx("cx-fwd", map[string]any{
+		"endpoint":        map[string]any{"url": S + "/ctx"},
+		"payload":         `{"role": {{ quote .Subject.Attributes.role }} }`,
+		"forward_headers": []string{"X-Tenant", "X-Role"}, "forward_cookies": []string{"trk", "pref"}, "cache_ttl": longTTL})
+	addAuthn("ga-fwd", "generic", map[string]any{
+		"identity_info_endpoint":     map[string]any{"url": S + "/identity", "method": "GET", "headers": map[string]any{"X-Credential": "{{ .AuthenticationData }}"}},
+		"authentication_data_source": []any{map[string]any{"header": "X-Session"}},
+		"forward_headers":            []string{"X-Tenant", "X-Role"}, "forward_cookies": []string{"trk", "pref"},
+		"subject": map[string]any{"id": "sub"}, "cache_ttl": longTTL})
+	// endpoint URLs whose query is rendered from subject/values WITHOUT urlenc: the remote system receives the raw query,
+	// including pairs net/url cannot parse (";" separated parameters, stray "%")
+	for _, x := range []struct {
+		id, ttl string
+		hc      bool
+	}{{"hx-rawq", "0s", true}, {"cx-rawq", longTTL, false}} {
+		addCtx(x.id+"-sub", map[string]any{"endpoint": map[string]any{"url": S + "/ctx?cc=max-age%3D600&p=" + x.id + "&user={{ .Subject.ID }};action=read", "method": "GET",
+			"http_cache": map[string]any{"enabled": x.hc}}, "cache_ttl": x.ttl})
+		addCtx(x.id+"-val", map[string]any{"endpoint": map[string]any{"url": S + "/ctx?cc=max-age%3D600&p=" + x.id + "&{{ .Values.q }}", "method": "GET",
+			"http_cache": map[string]any{"enabled": x.hc}}, "values": map[string]any{"q": "a=1"}, "cache_ttl": x.ttl})
+	}
+	// claims which do not look at the subject id (the issued token carries it nevertheless: "sub")
+	addFin("jf-attr", "jwt", map[string]any{"signer": map[string]any{"key_store": map[string]any{"path": e.signer}}, "ttl": "10m",
+		"claims": `{"grp": {{ quote .Subject.Attributes.role }} }`})
+	addFin("jf-out", "jwt", map[string]any{"signer": map[string]any{"key_store": map[string]any{"path": e.signer}}, "ttl": "10m",
+		"claims": `{"o1": {{ quote .Outputs.o1 }} }`})
+	addFin("jf-const", "jwt", map[string]any{"signer": map[string]any{"key_store": map[string]any{"path": e.signer}}, "ttl": "10m",
+		"claims": `{"aud": "upstream"}`})
 	addCtx("hx-url", map[string]any{"endpoint": map[string]any{"url": S + "/ctx?cc=max-age%3D600&who={{ .Subject.ID | urlenc }}", "method": "GET",
 		"http_cache": map[string]any{"enabled": true}}, "cache_ttl": "0s"})
 }
@@ -345,6 +378,35 @@ func (e *env) pairs() {
 		}
 		add("generic_contextualizer", "values-key-value", shift, cxVals(map[string]any{"ab" + x: "c"}), cxVals(map[string]any{"a": "b" + x + "c"}))
 
+		// a value moving from one forwarded name to another one, the other one being absent
+		fv := "v" + x
+		fwdReqs := []struct {
+			comp string
+			a, b ck.Req
+		}{
+			{"forwarded-value-header-to-other-header", ck.Req{Headers: hdr("X-Tenant", fv)}, ck.Req{Headers: hdr("X-Role", fv)}},
+			{"forwarded-value-header-to-cookie", ck.Req{Headers: hdr("X-Role", fv)}, ck.Req{Cookies: hdr("trk", fv)}},
+			{"forwarded-value-cookie-to-other-cookie", ck.Req{Cookies: hdr("trk", fv)}, ck.Req{Cookies: hdr("pref", fv)}},
+			{"forwarded-values-split", ck.Req{Headers: hdr("X-Tenant", "ab"+x, "X-Role", "c")}, ck.Req{Headers: hdr("X-Tenant", "a", "X-Role", "b"+x+"c")}},
+		}
+		for _, f := range fwdReqs {
+			add("generic_contextualizer", f.comp, shift, cxP("cx-fwd", ck.Step{Subject: sub(u1, r1), Req: f.a}, nil), cxP("cx-fwd", ck.Step{Subject: sub(u1, r1), Req: f.b}, nil))
+		}
+		// endpoint URL rendered with values net/url cannot parse as query
+		for _, p := range []string{"cx-rawq", "hx-rawq"} {
+			m := map[string]string{"cx-rawq": "generic_contextualizer", "hx-rawq": "http_cache"}[p]
+			add(m, "url-unparsable-query-from-subject", one, cxP(p+"-sub", ck.Step{Subject: sub(u1, r1)}, nil), cxP(p+"-sub", ck.Step{Subject: sub(u2, r1)}, nil))
+			for _, q := range [][2]string{
+				{"user=A" + x + ";action=read", "user=B" + x + ";action=read"},
+				{"discount=100%&user=" + x, "discount=5%&user=" + x},
+				{"user=" + x + "&dn=cn=" + x + ";ou=admins", "user=" + x + "&dn=cn=" + x + ";ou=guests"},
+				{"f=%zz" + x + "1", "f=%zz" + x + "2"},
+			} {
+				add(m, "url-unparsable-query-from-value", one, cxP(p+"-val", ck.Step{Subject: sub(u1, r1)}, map[string]any{"values": map[string]any{"q": q[0]}}),
+					cxP(p+"-val", ck.Step{Subject: sub(u1, r1)}, map[string]any{"values": map[string]any{"q": q[1]}}))
+			}
+		}
+
 		// ---- generic authenticator
 		c1 := ck.Opaque{Sub: u1, Nonce: x}.Token()
 		c2 := ck.Opaque{Sub: u2, Nonce: x}.Token()
@@ -354,6 +416,17 @@ func (e *env) pairs() {
 		add("generic_authenticator", "credential", one, ga(c1, t1, "k"), ga(c2, t1, "k"))
 		add("generic_authenticator", "forwarded-header-value", one, ga(c1, t1, "k"), ga(c1, t2, "k"))
 		add("generic_authenticator", "forwarded-cookie-value", one, ga(c1, t1, "k1"+x), ga(c1, t1, "k2"+x))
+		for _, f := range fwdReqs {
+			ra, rb := f.a, f.b
+			ra.Headers, rb.Headers = hdr("X-Session", c1), hdr("X-Session", c1)
+			for k, v := range f.a.Headers {
+				ra.Headers[k] = v
+			}
+			for k, v := range f.b.Headers {
+				rb.Headers[k] = v
+			}
+			add("generic_authenticator", f.comp, shift, mstep{Kind: "authn", Proto: "ga-fwd", Step: ck.Step{Req: ra}}, mstep{Kind: "authn", Proto: "ga-fwd", Step: ck.Step{Req: rb}})
+		}
 		gt := func(proto, cred string) mstep {
 			return mstep{Kind: "authn", Proto: proto, Step: ck.Step{Req: ck.Req{Headers: hdr("X-Session", cred)}}}
 		}
@@ -391,6 +464,15 @@ func (e *env) pairs() {
 		add("jwt_finalizer", "pipeline-output", one, jf(sub(u1, r1), o1, nil), jf(sub(u1, r1), o2, nil))
 		add("jwt_finalizer", "rule-level-claims", one, jf(sub(u1, r1), o1, map[string]any{"claims": `{"c": "A` + x + `"}`}), jf(sub(u1, r1), o1, map[string]any{"claims": `{"c": "B` + x + `"}`}))
 
+		// subjects differing in the id only, everything the claims template looks at being equal
+		jfP := func(proto string, s *ck.SubjectSpec) mstep {
+			return mstep{Kind: "fin", Proto: proto, Step: ck.Step{Subject: s, Outputs: map[string]any{"o1": o1}}}
+		}
+		for _, p := range []string{"jf-attr", "jf-out", "jf-const"} {
+			add("jwt_finalizer", "subject-id-unused-by-templates", one, jfP(p, sub(u1, r1)), jfP(p, sub(u2, r1)))
+		}
+		add("jwt_finalizer", "subject-id-unused-by-templates", one, jf(sub(u1, r1), o1, map[string]any{"claims": `{"c": "` + x + `"}`}), jf(sub(u2, r1), o1, map[string]any{"claims": `{"c": "` + x + `"}`}))
+
 		// ---- client credentials (finalizer and endpoint auth strategy)
 		cc := func(proto string, ov map[string]any) mstep {
 			return mstep{Kind: "fin", Proto: proto, Override: ov, Step: ck.Step{Subject: sub(u1, r1)}}
@@ -401,12 +483,16 @@ func (e *env) pairs() {
 		add("client_credentials", "rule-level-scopes", one, cc("cc-base", map[string]any{"scopes": []string{"A" + x}}), cc("cc-base", map[string]any{"scopes": []string{"B" + x}}))
 		add("client_credentials", "client-id-secret", shift, cc("cc-ab-c", nil), cc("cc-a-bc", nil))
 		add("client_credentials", "scopes", shift, cc("cc-base", map[string]any{"scopes": []string{"ab" + x, "c"}}), cc("cc-base", map[string]any{"scopes": []string{"a", "b" + x + "c"}}))
-		cs := func(proto string) mstep { return mstep{Kind: "ctx", Proto: "cs-" + proto, Step: ck.Step{Subject: sub(u1, r1)}} }
+		cs := func(proto string) mstep {
+			return mstep{Kind: "ctx", Proto: "cs-" + proto, Step: ck.Step{Subject: sub(u1, r1)}}
+		}
 		add("client_credentials", "endpoint-auth-client-secret", one, cs("cc-base"), cs("cc-secret"))
 		add("client_credentials", "endpoint-auth-client-id-secret", shift, cs("cc-ab-c"), cs("cc-a-bc"))
 
 		// ---- HTTP cache
-		hx := func(proto string, s *ck.SubjectSpec) mstep { return mstep{Kind: "ctx", Proto: proto, Step: ck.Step{Subject: s}} }
+		hx := func(proto string, s *ck.SubjectSpec) mstep {
+			return mstep{Kind: "ctx", Proto: proto, Step: ck.Step{Subject: s}}
+		}
 		add("http_cache", "http-request-body", one, hx("hx-body", sub(u1, r1)), hx("hx-body", sub(u2, r1)))
 		add("http_cache", "http-vary-header", one, hx("hx-vary", sub(u1, r1)), hx("hx-vary", sub(u2, r1)))
 		add("http_cache", "http-url", one, hx("hx-url", sub(u1, r1)), hx("hx-url", sub(u2, r1)))
